@@ -1549,7 +1549,13 @@ BTree_findRangeEnd(BTree *self, PyObject *keyarg, int low, int exclude_equal,
         pchild_is_btree = SameType_Check(self, pchild);
         if (i)
         {
+            /* Keep it alive:  its parent is unpinned further down, and a
+            * cache sweep during a later key comparison can then evict the
+            * parent, which drops the parent's reference to this child.
+            */
+            Py_XDECREF(deepest_smaller);
             deepest_smaller = self->data[i-1].child;
+            Py_INCREF(deepest_smaller);
             deepest_smaller_is_btree = pchild_is_btree;
         }
 
@@ -1561,7 +1567,11 @@ BTree_findRangeEnd(BTree *self, PyObject *keyarg, int low, int exclude_equal,
             }
             self = BTREE(pchild);
             self_got_rebound = 1;
-            PER_USE_OR_RETURN(self, -1);
+            UNLESS (PER_USE(self))
+            {
+                Py_XDECREF(deepest_smaller);
+                return -1;
+            }
         }
         else
         {
@@ -1634,6 +1644,7 @@ Done:
     {
         PER_UNUSE(self);
     }
+    Py_XDECREF(deepest_smaller);
     return result;
 }
 
